@@ -413,7 +413,8 @@ func (s *sink) produce(sem <-chan struct{}) bool {
 			}
 			s.cl.bumpRepeatedLoadErr(err)
 			s.cl.cfg.logger.Log(LogLevelWarn, "unable to load producer ID, bumping client's buffered record load errors by 1 and retrying")
-			return true // whatever caused our produce, we did nothing, so keep going
+			verifBusyYield() // no-op without the verif build tag
+			return true      // whatever caused our produce, we did nothing, so keep going
 		case errors.Is(err, ErrClientClosed):
 			s.cl.failBufferedRecords(err)
 		default:
